@@ -365,6 +365,9 @@ func (e *Env) execWith(scs []*scen.Scenario, timeout time.Duration, extraEnv []s
 			r.Stdout, r.Stderr, r.ExitCode, r.TimedOut = so.Bytes(), se.Bytes(), code, timedOut
 		} else if i < last {
 			r.ExitCode = 0
+		} else if timedOut {
+			// never started: the process was stopped for its wall-clock budget in an earlier episode of the batch
+			r.ExitCode, r.TimedOut = code, true
 		}
 	}
 	// a race world marks the start of every episode on stderr: give each run its own part
